@@ -59,7 +59,7 @@ WIDE = list('abz09') + ['é', '中', 'Ω'] + [' ', ' ', ' ', ' ', '　'] + li
 def run():
     ck = core.Check('C06', 'model_checking',
                     'exhaustive: all strings over {a, space, *, _, .} up to length 7 (quick) / 9 (thorough) and over {a,*}, {a,_} up to length 12 / 14 '
-                    '(strings starting or ending with a space are skipped: a heading strips them and line ends count as whitespace); plus random '
+                    'and over {a,*,_} up to length 10 / 12 (strings starting or ending with a space are skipped: a heading strips them and line ends count as whitespace); plus random '
                     'strings up to length 40 over Unicode punctuation/whitespace/digits mapped to classes; distinct = distinct input strings; '
                     'non-trivial = the string contains a delimiter run')
     m = core.impl()
@@ -72,7 +72,10 @@ def run():
     ck.extra['design_level'] = 'EmphasisImpl (index-based loop, per-kind bottoms) refines Emphasis; IndexesInRange and NoEmptyRun hold: %d states' % impl.distinct
     five = ['a', ' ', '*', '_', '.']
     shards5 = [''] + [x + y for x in five if x != ' ' for y in five]
+    three = ['a', '*', '_']
+    shards3 = [''] + [x + y for x in three for y in three]
     plan = [('Emphasis5q.cfg' if quick else 'Emphasis5t.cfg', shards5),
+            ('EmphasisBothq.cfg' if quick else 'EmphasisBotht.cfg', shards3),
             ('EmphasisStar%s.cfg' % ('q' if quick else 't'), ['-']),
             ('EmphasisUnder%s.cfg' % ('q' if quick else 't'), ['-'])]
     n_exh = 0
@@ -103,6 +106,12 @@ def run():
             continue
         seen.add(t)
         texts.append(t)
+    dense = list('a*_') * 6 + [' ', '.']
+    while len(texts) < n_rand * 3:
+        t = ''.join(ck.rng.choice(dense) for _ in range(ck.rng.randint(8, 24))).strip()
+        if t and t not in seen and ('*' in t or '_' in t):
+            seen.add(t)
+            texts.append(t)
     recs = [{'cls': [char_class(ch) for ch in t]} for t in texts]
     outs = batch(ck, recs)
     for t, out in zip(texts, outs):
